@@ -58,6 +58,18 @@ def param_key(view, ai, key):
     return None
 
 
+# Implicit sites (bounds checks, slice ranges, split_at, ...) are inventoried everywhere except in the division and
+# GCD kernels and in add.rs (adc_n / sbb_n, which only the division kernel calls): there every index depends on
+# run-time lengths and quotient digits and is the value contract of C12 / C14 (not applicable).  The multiplication
+# kernels, cmp, the shift helpers and the double-word ops ARE in scope: their indices are decided by the interval
+# engine (equal-length assumptions, min(), Rev<Range>, tuple-carried slice lengths).
+KERNEL_OUT_OF_SCOPE = ("src/algorithms/div", "src/algorithms/gcd", "src/algorithms/add.rs")
+
+
+def default_implicit_scope(body):
+    return not body["file"].startswith(KERNEL_OUT_OF_SCOPE)
+
+
 class Totality:
     def __init__(self, prog, table=None, implicit_scope=None, cfg_set=None):
         self.prog = prog
@@ -67,7 +79,7 @@ class Totality:
         self.ai_memo = {}
         self.inprogress = set()
         # implicit sites (bounds checks, slice ranges, ...) are inventoried only outside the kernels
-        self.implicit_scope = implicit_scope or (lambda body: not body["file"].startswith("src/algorithms"))
+        self.implicit_scope = implicit_scope or default_implicit_scope
         self.stats = {"functions": 0, "sites": 0, "discharged": 0, "table": 0}
         self.table_used = set()
         self.row_failures = []
@@ -1038,7 +1050,7 @@ class Totality:
         if k is not None and len_key is not None:
             if k == len_key:
                 return True
-            if len_key in st.ub.get(k, ()):
+            if len_key in st.ub.get(k, ()) or len_key in st.le.get(k, ()):
                 return True
         return False
 
